@@ -449,7 +449,35 @@ func (g *Gen) GenIntent(m *Model, usedNames map[string]bool, usedPrios map[int32
 		is.Leaves = cur
 	case "reprio":
 		is.Prio = g.freePrio(m, name, usedPrios)
-		is.Leaves = cur
+		is.Leaves = append([]*MLeaf(nil), cur...)
+		// re-prioritisation combined with a content edit in the same intent version
+		switch g.T.Weighted([]int{3, 2, 2, 2}) {
+		case 1: // drop leaves
+			for j := 0; j < 1+g.T.Choose(2) && len(is.Leaves) > 1; j++ {
+				idx := g.T.Choose(len(is.Leaves))
+				is.Leaves = append(is.Leaves[:idx], is.Leaves[idx+1:]...)
+			}
+			is.Edit = "reprio+shrink"
+		case 2: // change a value
+			if len(is.Leaves) > 0 {
+				idx := g.T.Choose(len(is.Leaves))
+				for _, s := range g.Uni {
+					if s.Path.String() == is.Leaves[idx].Key() {
+						is.Leaves[idx] = NewMLeaf(g.SI, s.Path, s.Lex[g.T.Choose(len(s.Lex))])
+					}
+				}
+				is.Edit = "reprio+change"
+			}
+		case 3: // add leaves
+			seen := map[string]bool{}
+			for _, l := range is.Leaves {
+				seen[l.Key()] = true
+			}
+			if l := g.pickSlotLeaf(m, seen, hot); l != nil {
+				is.Leaves = append(is.Leaves, l)
+				is.Edit = "reprio+grow"
+			}
+		}
 	case "change":
 		is.Leaves = append([]*MLeaf(nil), cur...)
 		if len(cur) == 0 {
